@@ -70,7 +70,7 @@ theorem R_reset (cfg : Cfg) (st : Style) (rest acc : List Char) :
     simpa [joinWith, natStr] using h
   · simp [applyCodes]
 
-theorem blank_updateLink_none (v : Variant) {st : Style} (hi : Inv st) (hc : st.color = none) (hg : st.bgcolor = none)
+theorem blank_updateLink_none (v : StyleVariant) {st : Style} (hi : Inv st) (hc : st.color = none) (hg : st.bgcolor = none)
     (hs : st.setAttributes = 0) : Blank (updateLink v st none) :=
   ⟨inv_updateLink v hi none, hc, hg, hs, rfl⟩
 
